@@ -263,6 +263,9 @@ func (r *Runner) Exec(op model.Op) *Obs {
 		if op.NodeID != "" {
 			nid = op.NodeID
 		}
+		if nid == "<empty>" {
+			nid = "" // FQDN Node ID with an empty name
+		}
 		if p.Assoc && nid == p.NodeID {
 			o.Predict = "accept"
 		} else {
